@@ -21,9 +21,9 @@ rc_demo_with, out = run(f'{PY} _seed/demo.py', cwd=wt); ran.append(f'demo with c
 rc_tests = None
 if not skip_tests:
     rc_tests, out = run(f'{PY} -m pytest -q -p no:cacheprovider --timeout=900', cwd=wt); ran.append(f'test suite with change: rc={rc_tests}: {out.strip().splitlines()[-1]}')
-run('git stash', cwd=wt); rebuild()
+run('git checkout -- .', cwd=wt); rebuild()
 rc_demo_without, out = run(f'{PY} _seed/demo.py', cwd=wt); ran.append(f'demo without change: exit {rc_demo_without}')
-run('git stash pop', cwd=wt); rebuild()
+run('git apply _seed/patch.diff', cwd=wt); rebuild()
 confirmed = rc_demo_with != 0 and rc_demo_without == 0 and (rc_tests in (0, None))
 # run the checks against the worktree (= /repo HEAD + the patch); evidence files are not rewritten
 rc, out = run(f'git -C /repo apply --check {seed}/patch.diff')
@@ -40,10 +40,16 @@ for c in man['checks']:
         results[c['property_id']] = dict(exit=rc2, violated=[v.strip()[:300] for v in viol[:6]], analysis_error=err[:2])
 dst = Path('/verif/seeded') / name
 dst.mkdir(parents=True, exist_ok=True)
+old = json.loads((dst / 'meta.json').read_text()) if (dst / 'meta.json').exists() else {}
+if skip_tests:
+    ran += [l for l in old.get('confirmation_runs', []) if l.startswith('test suite with change')]
+    confirmed = confirmed and any(l.startswith('test suite with change: rc=0') for l in ran)
+first = old.get('first_run_detected_by', old.get('detected_by'))
 shutil.copy(seed / 'patch.diff', dst / 'patch.diff'); shutil.copy(seed / 'demo.py', dst / 'demo.py')
 meta.update(dict(confirmed=confirmed, confirmation_runs=ran, checks_fired=results,
                  detected=bool(results.get(meta.get('property'), {}).get('exit') == 1) or any(v.get('exit') == 1 for v in results.values()),
                  detected_by=[k for k, v in results.items() if v.get('exit') == 1]))
+meta['first_run_detected_by'] = first if first is not None else meta['detected_by']
 (dst / 'meta.json').write_text(json.dumps(meta, indent=1))
 print(json.dumps(dict(name=name, confirmed=confirmed, detected_by=meta['detected_by'], errors={k: v for k, v in results.items() if v['exit'] == 2}, ran=ran), indent=1))
 for k, v in results.items():
